@@ -7,7 +7,8 @@ What one run does:
      coq/resume, re-check of coq/resume/props/<pid>.v with Print Assumptions;
   2. repair.check_repair(ctx): the stage-1 correspondence (Fix.v = the real fix* functions, by function equality
      through the verifhooks hooks) and the Repair.v theorems - the resumed automaton starts from Fix.fix_plan;
-  3. harness/cmd/recover: real uninterrupted runs of generated plans (case kind `run`), a REAL recovery
+  3. harness/cmd/recover (also: stores holding 3-6 plans Running at crash points of their own, recovered by ONE
+     coercion.New that must return within 5 s): real uninterrupted runs of generated plans (case kind `run`), a REAL recovery
      (vault.Create of the crash image on a fresh store, coercion.New, Wait) for EVERY write prefix of each of them
      (kind `rec`, level 1), and for a sample of those recoveries every write prefix of the recovery again (level 2);
      thorough: file-backed stores and real SIGKILLs of a child;
@@ -139,7 +140,9 @@ def replay_obj(ctx, c, kind, why, res, extra=None):
 def harness(ctx, plans, frm, double, file_pct, kills, out_name, only=None):
     # thorough: runs of at most 30 writes get EVERY recovery's write prefixes as second crash points
     args = ["-plans", str(plans), "-from", str(frm), "-tier", ctx.tier, "-double", str(double), "-file", str(file_pct), "-kills", str(kills),
-            "-doublesmall", "0" if ctx.tier == "quick" else "30"]
+            "-doublesmall", "0" if ctx.tier == "quick" else "30",
+            # stores holding 3-6 plans Running at crash points of their own (+ 0-2 others), ONE coercion.New on each
+            "-stores", "0" if only is not None else ("6" if ctx.tier == "quick" else "80")]
     if only is not None:
         args += ["-only", ",".join(str(i) for i in only)]
     return ctx.harness("recover", args, out_name=out_name, timeout=3000)
@@ -284,6 +287,15 @@ def verdicts(ctx, which, cases, cl, known, tag=None):
             c = noisy[0]
             ctx.violation(replay_obj(ctx, c, "not-quiescent", "the recovered plan was not quiescent when Wait returned: %s; %d such recoveries"
                                      % (c.get("note", ""), len(noisy)), None, dict(failing_cases=[x["id"] for x in noisy[:30]])), tag=tag)
+    shangs = [c for c in cases if c["kind"] == "store-hang"]
+    if shangs:
+        c = shangs[0]
+        if which == "C10":
+            ctx.violation(replay_obj(ctx, c, "hang", "no-hang clause violated: %s; %d such stores. Store composition (plan index, crash point): %s"
+                                     % (c.get("note", ""), len(shangs), json.dumps((c.get("input") or {}).get("composition"))), None,
+                                     dict(stores=[x["id"] for x in shangs[:20]])), tag=tag)
+        else:
+            ctx.notes.append("%d multi-plan stores on which coercion.New did not return (no-hang clause: C10)" % len(shangs))
     if which == "C09":
         hangs = [c for c in cases if c["kind"] == "rec" and is_hang(c)]
         if hangs:
@@ -346,6 +358,10 @@ def write_evidence(ctx, which, cases, live, res, cl, known, rep, timing):
         something_left_running=sum(1 for c in recs if (c.get("dist") or {}).get("running_left")),
         plugin_calls_in_recoveries=fw.histogram([min(x, 20) for x in d("plugin_calls")]),
         file_backed=sum(1 for c in recs if (c.get("dist") or {}).get("file_backed")),
+        multi_plan_stores=len({(c.get("dist") or {}).get("store") for c in recs if (c.get("dist") or {}).get("multi")}),
+        recoveries_in_multi_plan_stores=sum(1 for c in recs if (c.get("dist") or {}).get("multi")),
+        plans_per_store=fw.histogram([(c.get("dist") or {}).get("plans_in_store") for c in recs if (c.get("dist") or {}).get("multi")]),
+        store_hangs=sum(1 for c in cases if c["kind"] == "store-hang"),
         sigkill_restarts=sum(1 for c in cases if (c.get("dist") or {}).get("sigkill")),
         fresh_process_recoveries=sum(1 for c in recs if (c.get("dist") or {}).get("fresh_process")),
         distribution=dict(kind=fw.histogram([c["dist"].get("kind") for c in runs]), blocks=fw.histogram([c["dist"].get("blocks") for c in runs]),
